@@ -45,8 +45,10 @@ def build(case):
         for o in case["prog"]:
             if o["k"] == "a":
                 state = STATES[o["s"]]
+                if case.get("strstate"):        # the documented string spelling of the state ("zero", "any", ...)
+                    state = state.value
                 fresh = all(i not in dyn for i in o["ds"]) and len(set(o["ds"])) == len(o["ds"])
-                if fresh and not (o["s"] >= 2 and o["r"]):
+                if fresh and not (o["s"] >= 2 and o["r"]) and not case.get("strstate"):
                     reg = qp.allocate(len(o["ds"]), state=state, restored=o["r"])   # the user-facing constructor
                     for i, w in zip(o["ds"], reg):
                         dyn[i] = w
